@@ -228,6 +228,7 @@ def pair_index(chk, facts):
     rule = "C08.PAIR.index"
     spec = {
         AST_PS + "link": ({"self.links"}, {"self.template_to_links_map"}),
+        AST_PS + "add": ({"self.links"}, {"self.template_to_links_map"}),
         AST_PS + "add_static": ({"self.links", "self.templates"}, {"self.template_to_links_map"}),
         AST_PS + "add_template": ({"self.templates"}, {"self.template_to_links_map"}),
         AST_PS + "unlink": ({"self.links"}, {"self.template_to_links_map"}),
@@ -258,6 +259,85 @@ def pair_index(chk, facts):
         chk.ob(rule, short(name), ok, "fields written on success paths: %s; required together: %s" % (sorted(touched_on_ok), sorted(need)),
                where=f.where(), fn=name, key="%s:%s" % (rule, name), sample={"fn": short(name), "written": sorted(touched_on_ok)})
     chk.floor(rule, "operations", n, 12)
+    index_monotone(chk, facts)
+
+
+def merge_collisions(chk, facts):
+    """merge_policyset looks for every kind of id collision before it changes anything, whatever `rename_duplicates` says:
+    templates of `other` against links of self and links of `other` against templates of self (cross-kind), besides the same-kind scans."""
+    from lib.slice import leaf_producers
+    rule = "C08.GUARD.ids"
+    f = get_fn(chk, facts, rule, AST_PS + "merge_policyset")
+    if f is None:
+        return
+    pts = mutation_points(f)
+    first_mut = {start for start, desc, flds, line, fall, cb in pts if flds & {"self.links", "self.templates", "self.template_to_links_map"}}
+    oks = protocol.ok_blocks(f)
+    rn = None
+    for nm, p_ in f.r["dbg"]:
+        if nm == "rename_duplicates" and len(p_) == 1:
+            rn = p_[0]
+    for what, suffix in (("templates of other vs links of self", "PolicySet::get"), ("links of other vs templates of self", "PolicySet::get_template")):
+        sites = [(b, t) for b, t in f.calls() if callee(t).endswith(suffix)]
+        heads = set()
+        gated = []
+        for b, t in sites:
+            lp = protocol.loop_of(f, b)
+            if lp:
+                heads.add(lp[0])
+                for d, taken in cfg.guard_edges(f, lp[0]):
+                    sw = f.blocks[d]["t"]
+                    if sw[1][0] in ("c", "m") and rn is not None and ("param:%d" % rn) in leaf_producers(f, sw[1]):
+                        gated.append(d)
+        ok = bool(heads) and not gated and cfg.must_pass(f, 0, first_mut | oks, heads)
+        chk.ob(rule, "merge:" + suffix.split("::")[-1], ok, "merge_policyset scans %s before any change and on every path (%s)%s" % (what, bool(heads) and cfg.must_pass(f, 0, first_mut | oks, heads) if heads else False,
+               " — but only when rename_duplicates is set" if gated else ""), where=f.where(sites[0][1][1].get("l") if sites else None), fn=f.name, key="%s:merge:%s" % (rule, suffix.split("::")[-1]))
+    # with renaming off, any collision found is an error
+    errs = [b for b, s_ in f.stmts() if s_[0] == "a" and s_[2][0] == "agg" and s_[2][1][0] == "adt" and s_[2][1][2] == "Err"]
+    chk.ob(rule, "merge:occupied", bool(errs), "without renaming a collision is reported as an error: %s" % bool(errs), where=f.where(), fn=f.name)
+
+
+def index_monotone(chk, facts):
+    """The link index never forgets a link: an overwriting insert into template_to_links_map happens only for a template that is
+    provably new (under the Vacant entry of `templates`), or writes back the set it just removed (merge); links of an existing
+    template are added to its set (entry().or_default().insert)."""
+    rule = "C08.PAIR.index"
+    n = 0
+    for name in facts.unit_fns("cedar_policy_core.lib"):
+        if not name.startswith(AST_PS) or "closure" in name:
+            continue
+        f = facts.fns[name]
+        L = shape.Labels(f, None, self_field_seed if "self_field_seed" in globals() else None,
+                         call_labels=lambda c, t: ["OLDSET"] if c.split("::")[-1] in ("remove", "get", "get_mut") and "LinkedHashMap" in c else None)
+        for b, t in f.calls():
+            c = callee(t)
+            if not (c.endswith("LinkedHashMap::<K, V, S>::insert") or c.endswith("LinkedHashMap<K, V, S>::insert") or ("LinkedHashMap" in c and c.endswith("::insert"))):
+                continue
+            recv_fields = {e[2] for p_ in [t[2][0][1]] if t[2][0][0] in ("c", "m") for e in p_[1:] if isinstance(e, list) and e[0] == "f"}
+            if "template_to_links_map" not in recv_fields:
+                # receiver may be a reference local: follow one step
+                from lib.slice import leaf_producers
+                if not any(x.endswith("template_to_links_map") for x in leaf_producers(f, t[2][0])):
+                    continue
+            writes_back = len(t[2]) > 2 and "OLDSET" in L.operand_labels(t[2][2])
+            vacancy = False
+            for d, taken in cfg.guard_edges(f, b):
+                sw = f.blocks[d]["t"]
+                if sw[1][0] not in ("c", "m"):
+                    continue
+                for bb, s_ in f.stmts():
+                    if s_[0] == "a" and s_[1] == sw[1][1] and s_[2][0] == "disc":
+                        base = s_[2][1][0]
+                        ty = f.locals[base] if isinstance(base, int) else ""
+                        # Entry::Vacant and Option::Some both have discriminant 1: the site must be reachable through that arm only
+                        if ("VacantEntry" in ty or "Entry<" in ty) and "Template" in ty and [v for v, _ in taken] == [1]:
+                            vacancy = True
+            n += 1
+            chk.ob(rule, "index-insert@%s" % short(name).split("::")[-1], writes_back or vacancy,
+                   "%s overwrites the link set of a template %s" % (short(name).split("::")[-1], "that is new (under the Vacant entry of `templates`)" if vacancy else
+                                                               ("with the set it just took out and extended" if writes_back else "that may already have links: earlier links are forgotten by the index")),
+                   where=f.where(t[1].get("l")), fn=name, key="%s:index-insert:%s" % (rule, name))
+    chk.floor(rule, "overwriting index inserts", n, 4)
 
 
 def binding(chk, facts):
@@ -456,6 +536,7 @@ def run(chk, facts, tier):
     atomic(chk, facts)
     id_guards(chk, facts)
     pair_index(chk, facts)
+    merge_collisions(chk, facts)
     binding(chk, facts)
     equality(chk, facts)
     link_fields(chk, facts)
